@@ -206,7 +206,11 @@ def part_seed(run, be, count):
         for (hr, info, differs), v in zip(reruns, vals):
             before = len(run.findings)
             judge_history(run, hr, v, f"seed:case{info['case']}", dict(info, history=hr.log), shared_key=shared_key_for(hr))
-            shared = any(f.key.startswith(SHARED_KEY) for f in run.findings[before:])
+            bools, _ = parse_case(v)
+            # the faithful model (whose only channel between results is the shared M.result) reproduces
+            # every output of this history, and the same script on fresh circuits was reproducible
+            shared = (any(f.key.startswith(SHARED_KEY) for f in run.findings[before:])
+                      or (bools is not None and all(bools) and not hr.problems))
             if any(not f.key.startswith(SHARED_KEY) for f in run.findings[before:]):
                 ok = False
             if differs:
@@ -416,6 +420,8 @@ def main(run):
     run.assumptions += ["bit-flip probabilities p = 0, no collapse / repeated execution inside the histories",
                         "np.random.* are oracles (contract checked on every draw); thread interleavings inside one method call are not modelled"]
     names = static_obligations(run, "C14/Props")
+    if run.tier == "thorough":
+        c03.coqchk(run, "QV.C14.Props")
     run.not_proved += ["results_standalone (full statement): refuted, see results_standalone_refuted / results_standalone_partial"]
     b = budgets(run.tier)
     part_witness(run, be)
